@@ -173,6 +173,8 @@ class PlanRun:
             return
         job._xv_key = key
         job._xv_run = self.xp
+        rec["relpath"] = str(job.relpath)
+        rec["jobpath"] = str(job.path)
         rec["adopted"] = live[0] if live and job.pidpath.is_file() else None
         rec["marker_at_submit"] = job.donepath.is_file()
         rec["upstream_objs"] = [(f"j{d['on']}", self.tasks[d["on"]].__xpm__.job) for d in spec.get("deps", [])]
@@ -441,6 +443,7 @@ class PlanRun:
         unsafe = xp.unfinishedJobs != 0 or xp.taskOutputQueueSize != 0
         if aborted or rr.get("end") == "exception" or hung or rr.get("inconclusive") or waiter is None or unsafe:
             exc = (RuntimeError, RuntimeError("block raised"), None)
+        rr["left"] = "normal" if exc[0] is None else "exception"
         done = threading.Event()
         err = []
 
@@ -505,7 +508,9 @@ class PlanRun:
     def hooks_factory(self):
         from .monitors import standard_monitors
 
-        return standard_monitors(self.plan)
+        from .monitors import IndexMonitor
+
+        return standard_monitors(self.plan) + [IndexMonitor(self.plan)]
 
 
 def run_plan(plan, seed, scratch, decisions=None, keep=False):
